@@ -45,6 +45,8 @@ impl Session {
             let mut req = unsafe {Pin::new_unchecked(&mut req)};
             loop {
                 req.clear();
+                /* `ip` is a public field: what a fang wrote there for one request ( say, from `X-Forwarded-For` ) is not the next one's */
+                req.ip = self.ip;
                 /* the Keep-Alive timeout bounds the wait for a request, not the life of the session:
                    a handler or a streamed response may take longer, and so may a busy connection as a whole */
                 match timeout_in(
